@@ -250,7 +250,7 @@ func (iter *DBIterator) materialize(src *kv.Entry) bool {
 	if iter == nil || src == nil {
 		return false
 	}
-	if src.IsDeletedOrExpired() {
+	if isDeletedOrExpired(src.Meta, src.ExpiresAt) {
 		return false
 	}
 	iter.entry = *src
@@ -281,9 +281,6 @@ func (iter *DBIterator) materialize(src *kv.Entry) bool {
 			iter.item.valueBuf = iter.entry.Value
 		}
 	} else {
-		if src.Value == nil || src.IsDeletedOrExpired() {
-			return false
-		}
 		iter.entry.Value = src.Value
 		// Do not let item.valueBuf alias memory owned by the memtable arena or an
 		// SST block: Item.ValueCopy appends fetched value-log data into it.
